@@ -423,8 +423,13 @@ Definition view (t : tensor) (sh : list nat) : option tensor :=
 Definition lnat_eqb' := fix f (a b : list nat) : bool :=
   match a, b with [], [] => true | x :: r, y :: s => Nat.eqb x y && f r s | _, _ => false end.
 
-Definition getitem_model (v : variant) (debug : bool) (t : tensor) (raw_idx : list raw) : option tensor :=
-  let nd := length (tshape t) in
+(* the front end, abstracted over the operator: its shape and the two methods __getitem__ calls —
+   m_getitem     : self._getitem(row, col, *batch)  followed by to_dense (given the index list batch ++ [row; col]),
+   m_get_indices : self._get_indices(row, col, *batch) (given one index tensor per dimension, batch first) *)
+Definition getitem_front (v : variant) (debug : bool) (shape : list nat)
+    (m_getitem : list item -> option tensor) (m_get_indices : list (list nat * list Z) -> option tensor)
+    (raw_idx : list raw) : option tensor :=
+  let nd := length (shape) in
   if (nd <? 2)%nat then None else
   (* ellipsis fill + padding (debug mode: more than one ellipsis is an error; without debug it is outside the domain) *)
   match spec_expand nd raw_idx with
@@ -445,17 +450,17 @@ Definition getitem_model (v : variant) (debug : bool) (t : tensor) (raw_idx : li
       (* Fixed, absorbed: int indices stay ints and are made non-negative:  idx + size if idx < 0 *)
       let nonneg := fun (ns : list nat) (l : list item) =>
         map (fun '(n, it) => match it with IInt i => IInt (if i <? 0 then i + Z.of_nat n else i) | _ => it end) (combine ns l) in
-      let orig := if absorbed && variant_eqb v Fixed then nonneg (tshape t) (batch ++ [row'; col']) else batch ++ [row'; col'] in
+      let orig := if absorbed && variant_eqb v Fixed then nonneg (shape) (batch ++ [row'; col']) else batch ++ [row'; col'] in
       let res :=
         if absorbed then
           match bcast_all (flat_map (fun it => match it with ITensor sh _ => [sh] | _ => [] end) orig) [] with
           | None => None
           | Some B =>
               let flat := map (flatten_to B) orig in
-              match convert_indices_to_tensors (tshape t) flat with
+              match convert_indices_to_tensors (shape) flat with
               | None => None
               | Some ts =>
-                  match gather t ts with
+                  match m_get_indices ts with
                   | None => None
                   | Some r =>
                       if (1 <? length B)%nat then
@@ -471,20 +476,24 @@ Definition getitem_model (v : variant) (debug : bool) (t : tensor) (raw_idx : li
                   end
               end
           end
-        else torch_index_norm t orig in
+        else m_getitem orig in
       match res with
       | None => None
       | Some r =>
           let r1 := if sq_row then squeeze_back 2 r else r in
           let r2 := if sq_col then squeeze_back 1 r1 else r1 in
           if debug then
-            match compute_getitem_size debug (tshape t) index with
+            match compute_getitem_size debug (shape) index with
             | None => None
             | Some expected => if lnat_eqb' expected (tshape r2) then Some r2 else None
             end
           else Some r2
       end
   end.
+
+(* ... over an operator whose _getitem / _get_indices are DenseLinearOperator's: torch indexing of its tensor *)
+Definition getitem_model (v : variant) (debug : bool) (t : tensor) (raw_idx : list raw) : option tensor :=
+  getitem_front v debug (tshape t) (torch_index_norm t) (gather t) raw_idx.
 
 (* ===================================================================================== *)
 (** * Part 6 — per-class index arithmetic of _get_indices / _getitem (element level: one (row, col) pair;
@@ -602,3 +611,158 @@ Definition root_get_indices (R : Z -> Z -> Z) (rk : nat) (r c : Z) : Z := zsum_u
 Definition matmul_get_indices (L R : Z -> Z -> Z) (k : nat) (r c : Z) : Z := zsum_upto k (fun j => L r j * R j c).
 (* --- SumBatchLinearOperator._get_indices: base._get_indices(row, col, *batch, block_index).sum(-1) over nb blocks *)
 Definition sumbatch_get_indices (base : Z -> Z -> Z -> Z) (nb : nat) (r c : Z) : Z := zsum_upto nb (fun b => base b r c).
+
+(* ===================================================================================== *)
+(** * Part 7 — operators as dense denotations; what the front end needs from a class *)
+
+(* the dense tensor of shape sh whose entry at coordinates x is f x *)
+Definition tab (sh : list nat) (f : list nat -> Z) : tensor := mkT sh (map f (enum sh)).
+
+(* a class's _get_indices that evaluates an entry formula f element-wise over the (broadcasting) index tensors:
+   same validity checks and same broadcast shape as the gather of DenseLinearOperator._get_indices *)
+Definition gi_elem (f : list nat -> Z) (ns : list nat) (ts : list (list nat * list Z)) : option tensor :=
+  match bcast_all (map fst ts) [] with
+  | None => None
+  | Some B =>
+      if forallb (fun '(n, (sh, d)) => (length d =? prod sh)%nat && forallb (in_range (Z.of_nat n)) d)
+                 (combine ns ts) && (length ts =? length ns)%nat
+      then Some (mkT B (map (fun bc => f (map (fun '(n, (sh, d)) => Z.to_nat (wrap (Z.of_nat n) (tget_b sh d B bc)))
+                                              (combine ns ts))) (enum B)))
+      else None
+  end.
+
+(* coordinates: batch part, row, column *)
+Definition cb (x : list nat) : list nat := firstn (length x - 2) x.
+Definition cr (x : list nat) : nat := nth (length x - 2) x 0%nat.
+Definition cc (x : list nat) : nat := nth (length x - 1) x 0%nat.
+
+(** class-level entry formulas of _get_indices over a full coordinate list x = batch ++ [row; col]; children are given by their
+    own entry formulas (functions of THEIR coordinate lists), so the definitions nest exactly as the operators do *)
+Definition zr (x : list nat) : Z := Z.of_nat (cr x).
+Definition zc (x : list nat) : Z := Z.of_nat (cc x).
+
+(* ToeplitzLinearOperator: self.column[( *batch_indices, (row - col).fmod(n).abs())] *)
+Definition toeplitz_f (column : list nat -> Z) (n : nat) (x : list nat) : Z :=
+  column (cb x ++ [Z.to_nat (toeplitz_index (Z.of_nat n) (zr x) (zc x))]).
+
+(* KroneckerProductLinearOperator: factors (rows, cols, entry formula); running factor //= size, floor_div(.).fmod(size),
+   the sub-results multiplied up *)
+Definition kron_f (fs : list (nat * nat * (list nat -> Z))) (x : list nat) : Z :=
+  let ms := map (fun f => Z.of_nat (fst (fst f))) fs in
+  let ns := map (fun f => Z.of_nat (snd (fst f))) fs in
+  let rd := kron_digits ms (zprod ms) (zr x) in
+  let cd := kron_digits ns (zprod ns) (zc x) in
+  fold_right Z.mul 1 (map (fun '(f, (r, c)) => snd f (cb x ++ [Z.to_nat r; Z.to_nat c])) (combine fs (combine rd cd))).
+
+(* BlockDiagLinearOperator over a base of shape batch ++ [k; m; n]: base._get_indices(row.fmod(m), col.fmod(n), *batch, row // m) * (row // m == col // n) *)
+Definition blockdiag_f (base : list nat -> Z) (m n : nat) (x : list nat) : Z :=
+  let rb := py_div (zr x) (Z.of_nat m) in let cbk := py_div (zc x) (Z.of_nat n) in
+  base (cb x ++ [Z.to_nat rb; Z.to_nat (fmod (zr x) (Z.of_nat m)); Z.to_nat (fmod (zc x) (Z.of_nat n))]) * (if rb =? cbk then 1 else 0).
+
+(* BlockInterleavedLinearOperator (k blocks): base._get_indices(row // k, col // k, *batch, row.fmod(k)) * (row.fmod(k) == col.fmod(k)) *)
+Definition blockinterleaved_f (base : list nat -> Z) (k : nat) (x : list nat) : Z :=
+  let rb := fmod (zr x) (Z.of_nat k) in let cbk := fmod (zc x) (Z.of_nat k) in
+  base (cb x ++ [Z.to_nat rb; Z.to_nat (py_div (zr x) (Z.of_nat k)); Z.to_nat (py_div (zc x) (Z.of_nat k))]) * (if rb =? cbk then 1 else 0).
+
+(* BatchRepeatLinearOperator over a base with batch shape bbs: the LAST len(bbs) batch indices, each .fmod(size) *)
+Definition batchrepeat_f (base : list nat -> Z) (bbs : list nat) (x : list nat) : Z :=
+  let b := skipn (length (cb x) - length bbs) (cb x) in
+  base (map (fun '(i, s) => Z.to_nat (fmod (Z.of_nat i) (Z.of_nat s))) (combine b bbs) ++ [cr x; cc x]).
+
+(* DiagLinearOperator: self._diag[( *batch, row)] * (row == col) *)
+Definition diag_f (d : list nat -> Z) (x : list nat) : Z := d (cb x ++ [cr x]) * (if zr x =? zc x then 1 else 0).
+
+(* MaskedLinearOperator: base._get_indices(arange[row_mask][row], arange[col_mask][col], *batch) *)
+Definition masked_f (base : list nat -> Z) (rmask cmask : list bool) (x : list nat) : Z :=
+  base (cb x ++ [Z.to_nat (nth (cr x) (mask_positions rmask 0) 0); Z.to_nat (nth (cc x) (mask_positions cmask 0) 0)]).
+
+(* Root / Matmul / SumBatch: an inner index arange(k) is appended, the children are read at (row, inner) / (inner, col) /
+   (row, col, ..., block) and the last dimension is summed *)
+Definition root_f (R : list nat -> Z) (k : nat) (x : list nat) : Z :=
+  zsum_upto k (fun j => R (cb x ++ [cr x; Z.to_nat j]) * R (cb x ++ [cc x; Z.to_nat j])).
+Definition matmul_f (L R : list nat -> Z) (k : nat) (x : list nat) : Z :=
+  zsum_upto k (fun j => L (cb x ++ [cr x; Z.to_nat j]) * R (cb x ++ [Z.to_nat j; cc x])).
+Definition sumbatch_f (base : list nat -> Z) (nb : nat) (x : list nat) : Z :=
+  zsum_upto nb (fun b => base (cb x ++ [Z.to_nat b; cr x; cc x])).
+
+(* Sum / Mul / ConstantMul (constant expanded to the batch shape and indexed with the batch indices) / Zero / Triangular *)
+Definition sum_f (fs : list (list nat -> Z)) (x : list nat) : Z := fold_right Z.add 0 (map (fun f => f x) fs).
+Definition mul_f (f g : list nat -> Z) (x : list nat) : Z := f x * g x.
+Definition constmul_f (c base : list nat -> Z) (x : list nat) : Z := base x * c (cb x).
+Definition zero_f (x : list nat) : Z := 0.
+
+(* InterpolatedLinearOperator: li / lv / ri / rv give the interpolation indices / values of a (batch, row) resp. (batch, col) *)
+Definition interp_f (base : list nat -> Z) (li lv ri rv : list nat -> list Z) (x : list nat) : Z :=
+  interp_get_indices (fun a b => base (cb x ++ [Z.to_nat a; Z.to_nat b]))
+    (li (cb x ++ [cr x])) (lv (cb x ++ [cr x])) (ri (cb x ++ [cc x])) (rv (cb x ++ [cc x])).
+
+(* CatLinearOperator concatenated along dimension number dim (0-based, batch dimensions first) of components with sizes
+   `sizes` there: component and local index from the idx_to_tensor_idx / cat_dim_cum_sizes tables *)
+Definition set_nth {A} (l : list A) (k : nat) (v : A) : list A := firstn k l ++ v :: skipn (S k) l.
+Definition cat_f (pieces : list (list nat -> Z)) (sizes : list nat) (dim : nat) (x : list nat) : Z :=
+  let '(k, i) := cat_locate sizes (nth dim x 0%nat) in
+  nth k pieces (fun _ => 0) (set_nth x dim i).
+
+(** class-level formulas of _diagonal over a coordinate list y = batch ++ [i] *)
+Definition db (y : list nat) : list nat := removelast y.
+Definition di (y : list nat) : nat := last y 0%nat.
+(* Toeplitz: column[..., 0] expanded *)
+Definition toeplitz_dg (column : list nat -> Z) (y : list nat) : Z := column (db y ++ [0%nat]).
+(* BlockDiag: base._diagonal() of shape batch ++ [k; m] viewed as batch ++ [k * m] *)
+Definition blockdiag_dg (based : list nat -> Z) (m : nat) (y : list nat) : Z := based (db y ++ [(di y / m)%nat; (di y mod m)%nat]).
+(* BlockInterleaved: base._diagonal().mT flattened *)
+Definition blockinterleaved_dg (based : list nat -> Z) (k : nat) (y : list nat) : Z := based (db y ++ [(di y mod k)%nat; (di y / k)%nat]).
+(* Root with a dense root: (root ** 2).sum(-1);  Matmul of two dense operators: (left * right.mT).sum(-1);
+   Matmul with a Diag factor: left._diagonal() * right._diagonal();  SumBatch: base._diagonal().sum(-2) *)
+Definition root_dg (R : list nat -> Z) (k : nat) (y : list nat) : Z :=
+  zsum_upto k (fun j => R (db y ++ [di y; Z.to_nat j]) * R (db y ++ [di y; Z.to_nat j])).
+Definition matmul_dense_dg (L R : list nat -> Z) (k : nat) (y : list nat) : Z :=
+  zsum_upto k (fun j => L (db y ++ [di y; Z.to_nat j]) * R (db y ++ [Z.to_nat j; di y])).
+Definition matmul_diag_dg (ld rd : list nat -> Z) (y : list nat) : Z := ld y * rd y.
+Definition sumbatch_dg (based : list nat -> Z) (nb : nat) (y : list nat) : Z :=
+  zsum_upto nb (fun b => based (db y ++ [Z.to_nat b; di y])).
+
+(** tensor-level operations (executable) and class-level _getitem for basic indices: the index list is batch ++ [row; col]
+    with slices in the two matrix positions; children are given by THEIR _getitem (followed by to_dense) *)
+Definition tzip (f : Z -> Z -> Z) (a b : tensor) : option tensor :=
+  if lnat_eqb' (tshape a) (tshape b) then Some (tab (tshape a) (fun x => f (tget a x) (tget b x))) else None.
+(* a : bs ++ [m; k],  b : bs ++ [k; n]  (same batch shape) *)
+Definition tmatmul (a b : tensor) : option tensor :=
+  let sa := tshape a in let sb := tshape b in
+  let bs := firstn (length sa - 2) sa in
+  let m := nth (length sa - 2) sa 0%nat in let k := nth (length sa - 1) sa 0%nat in let n := nth (length sb - 1) sb 0%nat in
+  if lnat_eqb' sb (bs ++ [k; n]) && (2 <=? length sa)%nat
+  then Some (tab (bs ++ [m; n]) (matmul_f (tget a) (tget b) k)) else None.
+(* a : bs ++ [nb; m; n]  summed over the block dimension *)
+Definition tsumbatch (a : tensor) : option tensor :=
+  let s := tshape a in
+  if (3 <=? length s)%nat
+  then Some (tab (firstn (length s - 3) s ++ skipn (length s - 2) s) (sumbatch_f (tget a) (nth (length s - 3) s 0%nat)))
+  else None.
+(* r : bs ++ [m; n] scaled by c : bs *)
+Definition tconstmul (c r : tensor) : option tensor :=
+  if lnat_eqb' (tshape c) (firstn (length (tshape r) - 2) (tshape r))
+  then Some (tab (tshape r) (constmul_f (tget c) (tget r))) else None.
+
+Definition ibatch (its : list item) : list item := firstn (length its - 2) its.
+Definition irow (its : list item) : item := nth (length its - 2) its full.
+Definition icol (its : list item) : item := nth (length its - 1) its full.
+
+(* DenseLinearOperator._getitem: self.tensor[( *batch, row, col)] *)
+Definition dense_getitem (t : tensor) (its : list item) : option tensor := torch_index_norm t its.
+(* SumLinearOperator._getitem (two summands): SumLinearOperator(a._getitem(..), b._getitem(..)) *)
+Definition sum_getitem (ga gb : list item -> option tensor) (its : list item) : option tensor :=
+  match ga its, gb its with Some a, Some b => tzip Z.add a b | _, _ => None end.
+(* MatmulLinearOperator._getitem: Matmul(left._getitem(row, :, *batch), right._getitem(:, col, *batch)) *)
+Definition matmul_getitem (gl gr : list item -> option tensor) (its : list item) : option tensor :=
+  match gl (ibatch its ++ [irow its; full]), gr (ibatch its ++ [full; icol its]) with
+  | Some l, Some r => tmatmul l r | _, _ => None end.
+(* SumBatchLinearOperator._getitem: SumBatch(base._getitem(row, col, *batch, :)) *)
+Definition sumbatch_getitem (g : list item -> option tensor) (its : list item) : option tensor :=
+  match g (ibatch its ++ [full; irow its; icol its]) with Some r => tsumbatch r | None => None end.
+(* ConstantMulLinearOperator._getitem: base._getitem(..) with constant.expand(batch_shape)[batch_indices] *)
+Definition constmul_getitem (c : tensor) (g : list item -> option tensor) (its : list item) : option tensor :=
+  match g its, torch_index_norm c (ibatch its) with Some r, Some c' => tconstmul c' r | _, _ => None end.
+(* ZeroLinearOperator._getitem: ZeroLinearOperator( *_compute_getitem_size(self, indices)) *)
+Definition zero_getitem (shape : list nat) (its : list item) : option tensor :=
+  option_map (fun sh => tab sh zero_f) (compute_getitem_size false shape its).
